@@ -43,7 +43,7 @@ META = {
         "irregular rules with a minimum of 2, 3, 5 or 6 days cannot be obtained from the public factory (CalendarWeekRule has three members); the theorems cover them, the correspondence builds them through the private constructor",
         "DateAdjusters.month / day_of_month / start_of_month / end_of_month / add_period are calendar-field operations (C01/C09): checked by the direct oracle adjusters.fields only",
     ],
-    "rule": "dates within 8 days of every sampled year boundary and at calendar range ends, all 71 public rules plus the 28 irregular rules with 2, 3, 5, 6 minimum days, all calendars; thorough: every year boundary of every calendar (21 days around it) for all 49 irregular rules and every fifth one for the 49 regular rules; distinct = distinct op; non-trivial = every op",
+    "rule": "dates within 8 days of every sampled year boundary, all 71 public rules plus the 28 irregular rules with 2, 3, 5, 6 minimum days, all calendars; deterministically in every tier the first and last 8 dates of every calendar and the week-years min_year-1, min_year, max_year, max_year+1 with all 49 regular and all 49 irregular rules (suite weekyear.edges); thorough: every year boundary of every calendar (21 days around it) for all 49 irregular rules and every fifth one for the 49 regular rules; distinct = distinct op; non-trivial = every op",
 }
 
 _P = None
@@ -71,6 +71,11 @@ def cal_info(cid):
 _row_cache = {}
 
 
+# Year rows the calculators cannot produce although week-year rules need them (intended behaviour, see the
+# finding `week-year-api-raises:Badi:before-first-year`): Badi year 0 is 1843-03-21 .. 1844-03-20 (contains 29 Feb 1844).
+ROW_FALLBACK = {("Badi", 0): (0, -46307, 366)}
+
+
 def row(cid, y):
     k = (cid, y)
     if k not in _row_cache:
@@ -79,10 +84,18 @@ def row(cid, y):
             if y < mn - 1 or y > mx + 1:
                 raise ValueError
             s = calc._get_start_of_year_in_days(y)
-            ln = calc._get_days_in_year(y) if mn <= y <= mx else calc._get_start_of_year_in_days(y + 1) - s if y == mn - 1 else 354
+            if mn <= y <= mx:
+                ln = calc._get_days_in_year(y)
+            elif y == mn - 1:
+                ln = calc._get_start_of_year_in_days(y + 1) - s
+            else:
+                try:
+                    ln = calc._get_days_in_year(y)     # what get_weeks_in_week_year(max_year + 1) reads
+                except Exception:  # noqa: BLE001
+                    ln = 354
             _row_cache[k] = (y, s, ln)
         except Exception:  # noqa: BLE001
-            _row_cache[k] = None
+            _row_cache[k] = ROW_FALLBACK.get(k)
     return _row_cache[k]
 
 
@@ -205,6 +218,11 @@ def impl(t):
             return ints(r.get_week_year(d), r.get_week_of_week_year(d), int(d.day_of_week))
         if op == "wy.sw":
             return ints(*[x for tr in sweep_triples(line, cid, r, a[0], a[1]) for x in tr])
+        if op == "wy.rt":
+            d = mk_date(cid, a[1])
+            wy, w, dow = r.get_week_year(d), r.get_week_of_week_year(d), d.day_of_week
+            return " ".join([str(wy), str(w), str(int(dow)), guard(lambda: str(r.get_weeks_in_week_year(wy, c))),
+                             guard(lambda: str(r.get_local_date(wy, w, dow, c)._days_since_epoch))])
         if op == "wy.pyiso":
             iso = datetime.date.fromordinal(a[1] + 719163).isocalendar()
             return ints(iso[0], iso[1], iso[2])
@@ -283,10 +301,81 @@ def weekyear_failure(rule, what, year, wy):
     return None
 
 
+def api_raises(cid, year, what, e):
+    """a week-year getter / converter raised for a date (or week-year) that exists in the calendar"""
+    mn, mx = cal_info(cid)[2], cal_info(cid)[3]
+    side = "before-first-year" if year <= mn else ("after-last-year" if year >= mx else "inside")
+    return {"key": f"week-year-api-raises:{cid}:{side}", "what": f"{what} raised {type(e).__name__}: {e}"}
+
+
+def roundtrip_failure(cid, rule, r, c, date, days, what):
+    """date -> (week-year, week, day of week) -> date on the real code; returns (failure | None, triple, weeks)"""
+    try:
+        wy, w, dow = triple(r, date)
+    except Exception as e:  # noqa: BLE001
+        return api_raises(cid, date.year, f"{what}: get_week_year / get_week_of_week_year", e), None, None
+    f = weekyear_failure(rule, what, date.year, wy)
+    if f:
+        return f, (wy, w, dow), None
+    try:
+        nweeks = r.get_weeks_in_week_year(wy, c)
+    except Exception as e:  # noqa: BLE001
+        return api_raises(cid, wy, f"{what}: get_weeks_in_week_year({wy}), the week-year reported for the date,", e), (wy, w, dow), None
+    try:
+        back = r.get_local_date(wy, w, date.day_of_week, c)
+    except Exception as e:  # noqa: BLE001
+        return api_raises(cid, wy, f"{what}: get_local_date({wy}, {w}, {dow}), the triple reported for the date,", e), (wy, w, dow), nweeks
+    if back != date:
+        return {"key": "weekdate-roundtrip", "what": f"{what}: ({wy},{w},{dow}) converts back to day {back._days_since_epoch}"}, (wy, w, dow), nweeks
+    if not (1 <= w <= nweeks):
+        return {"key": "week-out-of-range", "what": f"{what}: week {w} of {nweeks}"}, (wy, w, dow), nweeks
+    return None, (wy, w, dow), nweeks
+
+
 def oracle(t):
     Pm = P()
     op = t[0]
     line = " ".join(t)
+    if op == "wy.rt":
+        cid, rule = SIDE[line]
+        c, calc, mn, mx, mnd, mxd = cal_info(cid)
+        r = mk_rule(*rule)
+        n = int(t[8])
+        cy, days = (int(x) for x in t[9 + 3 * n:])
+        date = mk_date(cid, days)
+        what = f"calendar {cid} rule {rule} date day-number {days} ({date.year}-{date.month}-{date.day})"
+        return roundtrip_failure(cid, rule, r, c, date, days, what)[0]
+    if op == "wy.weeks":
+        cid, rule = SIDE[line]
+        c, calc, mn, mx, mnd, mxd = cal_info(cid)
+        r = mk_rule(*rule)
+        n = int(t[8])
+        wy = int(t[9 + 3 * n])
+        ry = row(cid, wy)
+        if ry is None:
+            return None
+        try:
+            nweeks = r.get_weeks_in_week_year(wy, c)
+        except Exception as e:  # noqa: BLE001
+            # refused: then no date of the calendar may be in that week-year
+            for d in (ry[1], ry[1] + ry[2] - 1, ry[1] + 7, ry[1] + ry[2] - 8):
+                d = min(max(d, mnd), mxd)
+                try:
+                    if r.get_week_year(mk_date(cid, d)) == wy:
+                        return api_raises(cid, wy, f"calendar {cid} rule {rule} get_weeks_in_week_year({wy}), the week-year of day {d},", e)
+                except Exception:  # noqa: BLE001
+                    continue
+            return None
+        # accepted: the first and the last day of the calendar year that are in this week-year have weeks 1..nweeks
+        for d in (ry[1] + 7, ry[1] + ry[2] - 8):
+            if mnd <= d <= mxd:
+                try:
+                    wy2, w2, _ = triple(r, mk_date(cid, d))
+                except Exception:  # noqa: BLE001
+                    continue
+                if wy2 == wy and not 1 <= w2 <= nweeks:
+                    return {"key": "week-out-of-range", "what": f"calendar {cid} rule {rule} day {d}: week {w2} of {nweeks} in week-year {wy}"}
+        return None
     if op == "wy.of":
         cid, rule = SIDE[line]
         c, calc, mn, mx, mnd, mxd = cal_info(cid)
@@ -294,22 +383,11 @@ def oracle(t):
         n = int(t[8])
         cy, days = (int(x) for x in t[9 + 3 * n:])
         date = mk_date(cid, days)
-        wy, w, dow = r.get_week_year(date), r.get_week_of_week_year(date), date.day_of_week
         what = f"calendar {cid} rule {rule} date day-number {days} ({date.year}-{date.month}-{date.day})"
-        f = weekyear_failure(rule, what, date.year, wy)
+        f, t3, nweeks = roundtrip_failure(cid, rule, r, c, date, days, what)
         if f:
             return f
-        try:
-            nweeks = r.get_weeks_in_week_year(wy, c)
-            back = r.get_local_date(wy, w, dow, c)
-        except Exception as e:  # noqa: BLE001
-            if mnd + 14 <= days <= mxd - 14:
-                return {"key": "weekdate-roundtrip-raises", "what": f"{what}: ({wy},{w},{int(dow)}) -> {type(e).__name__}: {e}"}
-            return None
-        if back != date:
-            return {"key": "weekdate-roundtrip", "what": f"{what}: ({wy},{w},{int(dow)}) converts back to day {back._days_since_epoch}"}
-        if not (1 <= w <= nweeks):
-            return {"key": "week-out-of-range", "what": f"{what}: week {w} of {nweeks}"}
+        wy, w, dow = t3
         if days + 7 <= mxd:
             d7 = mk_date(cid, days + 7)
             try:
@@ -339,7 +417,10 @@ def oracle(t):
         r = mk_rule(*rule)
         n = int(t[8])
         d0, k = (int(x) for x in t[9 + 3 * n:])
-        trs = sweep_triples(line, cid, r, d0, k)
+        try:
+            trs = sweep_triples(line, cid, r, d0, k)
+        except Exception as e:  # noqa: BLE001
+            return api_raises(cid, mk_date(cid, d0).year, f"calendar {cid} rule {rule} days {d0}..{d0 + k - 1}: get_week_year / get_week_of_week_year", e)
         weeks = {}
 
         def nweeks_of(wy):
@@ -358,9 +439,7 @@ def oracle(t):
                 nweeks = nweeks_of(wy)
                 back = r.get_local_date(wy, w, date.day_of_week, c)
             except Exception as e:  # noqa: BLE001
-                if mnd + 14 <= days <= mxd - 14:
-                    return {"key": "weekdate-roundtrip-raises", "what": f"{what}: ({wy},{w},{dow}) -> {type(e).__name__}: {e}"}
-                continue
+                return api_raises(cid, wy, f"{what}: get_weeks_in_week_year / get_local_date({wy}, {w}, {dow}), the triple reported for the date,", e)
             if back != date:
                 return {"key": "weekdate-roundtrip", "what": f"{what}: ({wy},{w},{dow}) converts back to day {back._days_since_epoch}"}
             if not (1 <= w <= nweeks):
@@ -406,9 +485,11 @@ def oracle(t):
             if mnd <= cand <= mxd:
                 try:
                     t3 = triple(r, mk_date(cid, cand))
-                except Exception:  # noqa: BLE001
-                    return None
+                except Exception as e:  # noqa: BLE001
+                    return api_raises(cid, mk_date(cid, cand).year, f"calendar {cid} rule {rule} day {cand}: get_week_year / get_week_of_week_year", e)
                 if t3 == (wy, w, dow):
+                    if wy < mn or wy > mx:
+                        return api_raises(cid, wy, f"{what}, the triple of day {cand},", ValueError("refused"))
                     return {"key": "weekdate-rejected-but-exists", "what": f"{what} raised ValueError although day {cand} has exactly this week-year, week and day of week"}
             return None
         except Exception:  # noqa: BLE001
@@ -575,6 +656,48 @@ def gen(ctx, cids=None, extras=True):
         first = P().LocalDate(y, m, 1)
         dim = P().CalendarSystem.iso.get_days_in_month(y, m)
         ops.append(f"wd.nth {first._days_since_epoch} {dim} {rng.choice([1, 2, 3, 4, 5, 5, rng.randint(0, 6)])} {rng.choice([1, 2, 3, 4, 5, 6, 7, rng.randint(0, 8)])}")
+    return ops
+
+
+# ---- the ends of every calendar, deterministically (every tier) ------------------------------------------------------
+
+EDGE_DAYS = 8
+
+
+def edge_ops():
+    """first and last 8 dates of every calendar x all 49 regular and all 49 irregular rules: the round trip
+    (week-year, week, weeks in that week-year, get_local_date); the week-years min_year-1, min_year, max_year,
+    max_year+1 directly (weeks, dates of their first and last weeks)"""
+    ops = []
+    rules = regular_rules() + irregular_rules()
+    for cid in cal_ids():
+        c, calc, mn, mx, mnd, mxd = cal_info(cid)
+        for d in list(range(mnd, mnd + EDGE_DAYS)) + list(range(mxd - EDGE_DAYS + 1, mxd + 1)):
+            cy = mn if d < mnd + EDGE_DAYS else mx
+            for rule in rules:
+                pre = ctx_tokens(cid, rule, edge(cid, [cy - 1, cy, cy + 1]))
+                if pre is None:
+                    continue
+                line = f"wy.rt {pre} {cy} {d}"
+                SIDE[line] = (cid, rule)
+                ops.append(line)
+        for wy in (mn - 1, mn, mx, mx + 1):
+            for rule in rules:
+                pre = ctx_tokens(cid, rule, edge(cid, [wy, wy + 1] if wy <= mx else [wy]))
+                if pre is not None:
+                    line = f"wy.weeks {pre} {wy}"
+                    SIDE[line] = (cid, rule)
+                    ops.append(line)
+                if mn <= wy <= mx:
+                    continue
+                pre2 = ctx_tokens(cid, rule, edge(cid, [wy, wy + 1] if wy < mn else [wy - 1, wy]))
+                if pre2 is None:
+                    continue
+                for w in (1, 2, 52, 53):
+                    for dow in (rule[1], (rule[1] + 5) % 7 + 1):
+                        line = f"wy.date {pre2} {wy} {w} {dow}"
+                        SIDE[line] = (cid, rule)
+                        ops.append(line)
     return ops
 
 
@@ -750,6 +873,8 @@ def run(ctx):
         ctx.parallel(_sweep, sweeps)
     else:
         _explore(ctx, (None, True))
+    ctx.correspond("weekyear.edges", edge_ops(), impl, oracle=oracle, exhaustive=True)
+    if not ctx.thorough:
         # a sample of the thorough sweep: every rule (regular and irregular) on a few year boundaries of every calendar
         rng = ctx.rng
         allr = irregular_rules() + regular_rules()
